@@ -129,10 +129,9 @@ func c05r4(c *core.Ctx) {
 	// detaches every registered filter: loop over c.filters storing the unregistered marker into filter.cache
 	detach, idxCleared, poolReset := false, false, false
 	core.InspectNoLits(reset.Body, func(n ast.Node) bool {
-		switch x := n.(type) {
-		case *ast.RangeStmt:
-			if fieldKeyOf(m, x.X) == "cache.filters" {
-				ast.Inspect(x.Body, func(y ast.Node) bool {
+		if body, isLoop := loopOverAll(m, n, "cache.filters"); isLoop {
+			{
+				ast.Inspect(body, func(y ast.Node) bool {
 					if as, ok := y.(*ast.AssignStmt); ok {
 						for i, l := range as.Lhs {
 							if fieldKeyOf(m, l) == "filter.cache" && i < len(as.Rhs) {
@@ -145,6 +144,8 @@ func c05r4(c *core.Ctx) {
 					return true
 				})
 			}
+		}
+		switch x := n.(type) {
 		case *ast.AssignStmt:
 			for _, l := range x.Lhs {
 				if fieldKeyOf(m, l) == "cache.indices" {
